@@ -18,7 +18,8 @@ Clients == { [kind |-> k, regalg |-> a, keys |-> ks, uris |-> u] :
                k \in {"oidc", "plain"}, a \in {"", "RS256", "ES256", "none"}, ks \in BOOLEAN, u \in BOOLEAN }
 Modes == {"request", "request_uri", "both"}
 ObjAlgs == {"RS256_registered_key", "RS256_other_key", "ES256_registered_key", "none", "HS256"}
-UriKinds == {"registered", "unregistered"}
+\* registered_extended: another location that merely STARTS with a registered one (request.jwt.old): not registered
+UriKinds == {"registered", "unregistered", "registered_extended"}
 
 AlgName(oa) == CASE oa \in {"RS256_registered_key", "RS256_other_key"} -> "RS256" [] oa = "ES256_registered_key" -> "ES256" [] oa = "HS256" -> "HS256" [] OTHER -> "none"
 Outcome(c, openid, mode, oa, uk) ==
@@ -26,7 +27,7 @@ Outcome(c, openid, mode, oa, uk) ==
   ELSE IF mode = "both" THEN "refused"
   ELSE IF c.kind # "oidc" THEN "refused"
   ELSE IF ~c.keys THEN "refused"
-  ELSE IF mode = "request_uri" /\ (~c.uris \/ uk = "unregistered") THEN "refused"
+  ELSE IF mode = "request_uri" /\ (~c.uris \/ uk # "registered") THEN "refused"
   ELSE IF c.regalg # "" /\ c.regalg # AlgName(oa) THEN "refused"
   ELSE IF oa = "none" THEN "honoured"                        \* reached only when the registration is "" (any) or "none"
   ELSE IF oa \in {"RS256_registered_key", "ES256_registered_key"} THEN "honoured"
